@@ -630,34 +630,68 @@ class Interp:
         if node.id in ("len", "range", "float", "int", "abs", "str", "isinstance", "list",
                        "tuple", "sum", "min", "max", "enumerate", "zip", "print"):
             return _Builtin(node.id)
+        # module-level constants of the module being interpreted (and of maths.py)
+        for rel in (self.rel, "maths.py"):
+            for st in self.S.module(rel).body:
+                if isinstance(st, ast.Assign) and len(st.targets) == 1 \
+                        and isinstance(st.targets[0], ast.Name) and st.targets[0].id == node.id:
+                    if isinstance(st.value, ast.Constant) and isinstance(st.value.value, str):
+                        return st.value.value
+                    c = const_value(st.value)
+                    if c is not None:
+                        return c
         raise Unsupported("unbound name " + node.id)
+
+    def ev_Starred(self, node, env):
+        raise Unsupported("starred expression outside a display")
+
+    def _elts(self, elts, env):
+        out = []
+        for e in elts:
+            if isinstance(e, ast.Starred):
+                v = self.ev(e.value, env)
+                if isinstance(v, Arr):
+                    if v.rank == 0:
+                        raise Unsupported("unpacking a scalar")
+                    out.extend(self.index_arr(v, [i], e) for i in range(v.shape[0]))
+                elif isinstance(v, (list, tuple)):
+                    out.extend(v)
+                else:
+                    raise Unsupported("unpacking " + type(v).__name__)
+            else:
+                out.append(self.ev(e, env))
+        return out
 
     def ev_JoinedStr(self, node, env):
         return "<fstring>"
 
     def ev_Tuple(self, node, env):
-        return tuple(self.ev(e, env) for e in node.elts)
+        return tuple(self._elts(node.elts, env))
 
     def ev_List(self, node, env):
-        return [self.ev(e, env) for e in node.elts]
+        return self._elts(node.elts, env)
 
     def ev_Dict(self, node, env):
         return {_hashable(self.ev(k, env)): self.ev(v, env)
                 for k, v in zip(node.keys, node.values)}
 
     def ev_ListComp(self, node, env):
-        if len(node.generators) != 1:
-            raise Unsupported("nested comprehension")
-        g = node.generators[0]
-        it = self.ev(g.iter, env)
-        if not isinstance(it, (list, tuple, range)):
-            raise Unsupported("comprehension over " + type(it).__name__)
         out = []
-        sub = dict(env)
-        for x in it:
-            self.assign(g.target, x, sub, node)
-            if all(self.truth(self.ev(c, sub), c) for c in g.ifs):
+
+        def rec(k, sub):
+            if k == len(node.generators):
                 out.append(self.ev(node.elt, sub))
+                return
+            g = node.generators[k]
+            it = self.ev(g.iter, sub)
+            if not isinstance(it, (list, tuple, range)):
+                raise Unsupported("comprehension over " + type(it).__name__)
+            for x in it:
+                sub2 = dict(sub)
+                self.assign(g.target, x, sub2, node)
+                if all(self.truth(self.ev(c, sub2), c) for c in g.ifs):
+                    rec(k + 1, sub2)
+        rec(0, dict(env))
         return out
 
     ev_GeneratorExp = ev_ListComp
@@ -1026,6 +1060,20 @@ class Interp:
         f = self.ev(node.func, env)
         if isinstance(f, _Builtin):
             return self.builtin(f.name, args, kwargs, node)
+        if isinstance(f, _Module):
+            # a method / library function held in a variable
+            if f.name.startswith("self.fd."):
+                return self.fd_call(f.name[8:], args, node)
+            if f.name.startswith("np."):
+                return self.np_call(f.name[3:], args, kwargs, node)
+            if f.name.startswith("maths."):
+                fn = self.maths.get(f.name[6:])
+                if fn is not None:
+                    return self.call_function(fn, args, kwargs, f.name, False)
+            if f.name.startswith("self.") and f.name.count(".") == 1:
+                fn = self.core.get(self.cls + "." + f.name[5:])
+                if fn is not None:
+                    return self.call_function(fn, args, kwargs, f.name[5:], True)
         if isinstance(f, _BoundMethod):
             return self.bound(f, args, kwargs, node)
         # module-level functions of the module being interpreted (maths.py internals)
@@ -1335,10 +1383,17 @@ class Interp:
     # -- einsum ----------------------------------------------------------------------------------------
     def einsum(self, node, env):
         self.einsum_count += 1
-        if not node.args or not isinstance(node.args[0], ast.Constant) \
-                or not isinstance(node.args[0].value, str):
+        spec0 = None
+        if node.args and isinstance(node.args[0], ast.Constant):
+            spec0 = node.args[0].value
+        elif node.args:
+            try:
+                spec0 = self.ev(node.args[0], env)
+            except Unsupported:
+                spec0 = None
+        if not isinstance(spec0, str):
             raise Unsupported("einsum with non-literal subscripts")
-        spec = node.args[0].value.replace(" ", "")
+        spec = spec0.replace(" ", "")
         if "->" not in spec:
             raise Unsupported("implicit einsum output")
         ins, out = spec.split("->")
